@@ -81,6 +81,12 @@ func genC17Arg(t *rapid.T, root interface{}) c17Arg {
 		}
 		steps = append(steps, s)
 	}
+	for i := range steps {
+		// (.a.absent, with the context as the base, is left open: a field node, not a chain)
+		if a.Base == "dot" && steps[i].Name == "absentKey" && steps[i].Spell == "dot" {
+			steps[i].Spell = "bracket"
+		}
+	}
 	a.Steps = steps
 	return a
 }
@@ -246,6 +252,8 @@ func judgeC17(c c17Case) (v core.Verdict) {
 		}
 		vars.Set(name, i)
 	}
+	vars.Set("idx256", 256)
+	vars.Set("idx300", 300)
 	t, o := jetrun.Get(s, "/t.jet")
 	if o.Failed() {
 		v.Failf("template %s does not parse: %s", tpl, o)
